@@ -2032,6 +2032,17 @@ def run_lit(case):
                                f'hl.literal(v) has dtype {e2.dtype} but emits an IR of type {show(it)}')
                 except Outside:
                     pass
+                except KeyError as ex:
+                    # rendering encodes the value with the imputed type: a Struct member that lacks a field of that type
+                    if 'has no field' in str(ex):
+                        v.fail('impute-not-accepting:struct-union-of-fields', CL_LIT,
+                               f'impute_type({val!r}) = {d}: struct members with different field sets are unified to the UNION of their '
+                               f'fields (super_unify_types), which a member lacking one of them does not satisfy; encoding the literal '
+                               f'raises {ex!r}')
+                    else:
+                        v.fail(f'literal-render-raises:KeyError:{_frame(ex)}', CL_LIT, f'rendering hl.literal({val!r}) raised {ex!r}')
+                except Exception as ex:      # noqa: a literal whose construction succeeded must render
+                    v.fail(f'literal-render-raises:{type(ex).__name__}:{_frame(ex)}', CL_LIT, f'rendering hl.literal({val!r}) raised {ex!r}')
     classes |= v.classes
     if any(c.startswith('outside_grammar') for c in classes):
         classes.add('outside_grammar')
